@@ -350,6 +350,13 @@ end O2o
 
 namespace O2o
 
+theorem ext_parentTypePass (f : Field) (byKind : List (TraitAttrCore × Kind)) : Ext (parentTypePass f byKind) := by
+  intro es m hm
+  unfold parentTypePass
+  split
+  · exact mem_insert_of_mem _ _ _ hm
+  · exact hm
+
 theorem ext_validateMember (input : DataType) (isEnum : Bool) (tps : List TypePath) (byKind : List (TraitAttrCore × Kind))
     (member : DataTypeMember) : Ext (fun es => validateMember input isEnum tps byKind es member) := by
   intro es m hm
@@ -362,6 +369,7 @@ theorem ext_validateMember (input : DataType) (isEnum : Bool) (tps : List TypePa
   cases member with
   | field f =>
     simp only
+    apply ext_parentTypePass
     apply ext_validateParentAttrs
     apply ext_validateDedicatedMemberAttrs
     apply ext_barkAtMemberAttr
